@@ -3,7 +3,7 @@ from __future__ import annotations
 
 from typing import Callable, Dict, Optional
 
-from .rules import dispatch, ops, opt, pyx, reg, repres, sig, small
+from .rules import align, dispatch, ops, opt, pyx, reg, repres, sig, small, wrappers
 
 _CACHE: Dict[str, object] = {}
 
@@ -27,6 +27,11 @@ RULES: Dict[str, Callable] = {
     "R-OPT-LAYERS": _cached("R-OPT-LAYERS", opt.run_layers),
     "R-OPT-PAIRING": _cached("R-OPT-PAIRING", opt.run_pairing),
     "R-OPT-PINNED": _cached("R-OPT-PINNED", opt.run_pinned),
+    "R-ALIGN": _cached("R-ALIGN", align.run),
+    "R-DELEGATE": _cached("R-DELEGATE", wrappers.run_delegate),
+    "R-ORDER": _cached("R-ORDER", wrappers.run_order),
+    "R-FWD": _cached("R-FWD", wrappers.run_fwd),
+    "R-TWIN": _cached("R-TWIN", wrappers.run_twin),
     "R-CONST": _cached("R-CONST", small.run_const),
     "R-STABLE": _cached("R-STABLE", small.run_stable),
     "R-GUARDS": _cached("R-GUARDS", small.run_guards),
@@ -51,6 +56,21 @@ class Use:
 
 
 PLAN: Dict[str, dict] = {
+    "C10": {
+        "uses": [Use("R-ALIGN", scoped=True), Use("R-DELEGATE", scoped=True), Use("R-ORDER", scoped=True), Use("R-FWD", scoped=True), Use("R-SIG", scoped=True)],
+        "explanation": "x",
+        "not_decided": "",
+    },
+    "C05": {
+        "uses": [Use("R-ALIGN", scoped=True), Use("R-OPS")],
+        "explanation": "x",
+        "not_decided": "",
+    },
+    "C02": {
+        "uses": [Use("R-TWIN"), Use("R-GUARDS")],
+        "explanation": "x",
+        "not_decided": "",
+    },
     "C13": {
         "uses": [Use("R-REDUCE"), Use("R-FINAL"), Use("R-HEADER"), Use("R-CODEC"), Use("R-SIG", scoped=True)],
         "explanation": "x",
@@ -72,7 +92,7 @@ PLAN: Dict[str, dict] = {
         "not_decided": "",
     },
     "C11": {
-        "uses": [Use("R-CONST"), Use("R-SIG", scoped=True)],
+        "uses": [Use("R-CONST"), Use("R-SIG", scoped=True), Use("R-DELEGATE", scoped=True), Use("R-ORDER", scoped=True), Use("R-FWD", scoped=True)],
         "explanation": "x",
         "not_decided": "",
     },
